@@ -20,6 +20,9 @@ Pick(cands) ==
   IN IF idx = {} THEN "ok" ELSE cands[CHOOSE i \in idx : \A j \in idx : i <= j][1]
 
 Clause(r) == Pick(<<
+  \* what was persisted for THIS run is a history the reducer cannot replay at all (context_from_ticks raised): every
+  \* persisted point is one the server must be able to come back from
+  <<"persisted_history_not_replayable", r.res.rebuild_error>>,
   <<"finished_run_was_rerun", r.prefix_ends_run /\ r.reran>>,
   <<"finished_run_not_finalized", r.prefix_ends_run /\ (r.res.status # r.ref.status \/ r.res.result # r.ref.result)>>,
   \* the restarted server could not rebuild the run (or the rebuilt run breaks) and marks it failed although the
